@@ -1,6 +1,7 @@
 from .mesh_data import RawMeshData
 from .datatypes import Mesh, PointCloud, PolyLine, SurfaceMesh, VolumeMesh
 from .io.io import read_by_extension, write_by_extension
+from ..geometry import Vec
 
 import numpy as np
 
@@ -187,7 +188,7 @@ def merge(mesh_list : list) -> Mesh:
     merged = RawMeshData()
     vertex_offset = 0
     for to_merge in mesh_list:
-        merged.vertices += to_merge.vertices
+        merged.vertices += [Vec(v).copy() for v in to_merge.vertices] # no coordinate array is shared with an input
         if hasattr(to_merge, "edges") : 
             merged.edges += [tuple((vertex_offset+u for u in e)) for e in to_merge.edges]
         if hasattr(to_merge, "faces") : 
